@@ -1,10 +1,7 @@
 SPECIFICATION SafeSpec
 CONSTANTS
   H = {"a", "b"}
-  HC <- HC_ab
-  Order <- Order_ab
-  Lifecycle = "one"
-  CTimeout = 2
+  ConfSet <- Confs_ab_one
   Delays = {1}
   EssVals = {1, 2}
   Foreign = {}
